@@ -1,5 +1,6 @@
 //! Correspondence harness for fixed-buffer (blocking crate).  Runs the real code and
 //! prints one line per explored case for the Lean driver (`fbvdriver`).
+mod ad;
 mod df;
 mod es;
 mod replay;
@@ -34,8 +35,8 @@ macro_rules! walk_sizes {
 }
 
 /// replay of scenario kinds added by later modules
-pub fn replay_other(_line: &str, _w: &mut impl std::io::Write) -> bool {
-    false
+pub fn replay_other(line: &str, w: &mut impl std::io::Write) -> bool {
+    ad::replay_line(line, w)
 }
 
 fn main() {
@@ -71,6 +72,13 @@ fn main() {
                 };
                 explore_sizes!(sc, w, tot, 0, 1, 2, 3, 4);
             }
+            let mut gt = 0usize;
+            gt += t1::grid::<5>(&mut w) + t1::grid::<6>(&mut w) + t1::grid::<7>(&mut w) + t1::grid::<8>(&mut w);
+            gt += t1::grid::<16>(&mut w);
+            if thorough {
+                gt += t1::grid::<64>(&mut w) + t1::grid::<255>(&mut w);
+            }
+            eprintln!("STAT t1_grid transitions={} sizes=5,6,7,8,16{}", gt, if thorough { ",64,255" } else { "" });
             let mut rng = Rng(seed);
             let mut wt = 0usize;
             let (walks, steps) = if thorough { (60, 400) } else { (6, 150) };
@@ -79,6 +87,7 @@ fn main() {
             eprintln!("STAT t1_total states={} transitions={} capped={} walk_transitions={}", tot.0, tot.1, tot.2, wt);
         }
         "df" => df::run(thorough, seed, &mut w),
+        "chain" | "take" => ad::run(&mode, thorough, seed, &mut w),
         "es" => es::run(thorough, seed, &mut w),
         "replay" => replay::run(&mut w),
         _ => {
